@@ -47,6 +47,7 @@ fn main() {
     "probe" => probe(),
     "fmtone" => fmtone(),
     "c09time" => c09time(),
+    "emitcorpus" => emitcorpus(),
     "parsetime" => { use std::io::Read; mech::install_quiet_panic_hook(); let mut s = String::new(); std::io::stdin().read_to_string(&mut s).unwrap(); let h = std::thread::Builder::new().stack_size(1024 << 20).spawn(move || { let t0 = std::time::Instant::now(); let r = std::panic::catch_unwind(std::panic::AssertUnwindSafe(|| mech_syntax::parser::parse(&s))); println!("{} ms {}", t0.elapsed().as_millis(), match r { Ok(Ok(_)) => "ok", Ok(Err(_)) => "err", Err(_) => "panic" }); }).unwrap(); h.join().unwrap(); }
     "fmtprobe" => fmtprobe(),
     "docprobe" => docprobe(),
@@ -242,6 +243,34 @@ fn c09time() {
       let ms = t0.elapsed().as_millis();
       if ms > limit_ms { println!("SLOW {} ms  #{} {}", ms, i, serde_json::to_string(&case).unwrap_or_default().chars().take(300).collect::<String>()); println!("   text {:?}", text.chars().take(400).collect::<String>()); }
     }
+  }).unwrap();
+  h.join().unwrap();
+}
+
+/// writes the seed corpora of the libFuzzer targets: <dir>/text/* (suite snippets, small .mec files, generated constructs) and
+/// <dir>/images/* (files the real compiler emits for generated programs; sets are left out: the set-constant decode hang is a listed finding)
+fn emitcorpus() {
+  mech::install_quiet_panic_hook();
+  let args: Vec<String> = std::env::args().collect();
+  let dir = args.get(2).cloned().unwrap_or_else(|| format!("{}/target/fuzz-corpus", engine::verif_dir()));
+  let _ = std::fs::create_dir_all(format!("{}/text", dir));
+  let _ = std::fs::create_dir_all(format!("{}/images", dir));
+  let h = std::thread::Builder::new().stack_size(1024 << 20).spawn(move || {
+    let mut n = 0;
+    for (i, (_, t)) in props::c08::corpus("snippets").iter().enumerate() { if t.len() <= 2048 { let _ = std::fs::write(format!("{}/text/s{:04}", dir, i), t); n += 1; } }
+    for (i, (_, t)) in props::c08::corpus("files").iter().enumerate() { if t.len() <= 4096 { let _ = std::fs::write(format!("{}/text/f{:04}", dir, i), t); n += 1; } }
+    for k in 0..props::c08::NCONSTRUCTS { for p in [0u32, 1, 13] { let (_, t) = props::c08::construct(k, p); let _ = std::fs::write(format!("{}/text/g{:02}_{}", dir, k, p), t); n += 1; } }
+    let mut m = 0;
+    let mut x: u64 = 0x9E3779B97F4A7C15;
+    for i in 0..400u32 {
+      let mut ch = vec![];
+      for _ in 0..40 { x ^= x << 13; x ^= x >> 7; x ^= x << 17; ch.push((x % 100_000) as u32); }
+      if let Some(b) = props::c07::base_bytes(&ch, i % 2 == 0) {
+        let src_has_set = String::from_utf8_lossy(&b).contains("set/");
+        if b.len() <= 8192 && !src_has_set { let _ = std::fs::write(format!("{}/images/p{:04}.mecb", dir, i), &b); m += 1; }
+      }
+    }
+    println!("text seeds: {}  image seeds: {}", n, m);
   }).unwrap();
   h.join().unwrap();
 }
